@@ -648,7 +648,7 @@ func (l *Lexer) GetLineText(t token.Token) string {
 
 	// Find the start of the line containing the given token
 	start := tokenStart.Char
-	if t.Type == token.EOF {
+	if t.Type == token.EOF && start > 0 {
 		start--
 	}
 	for start > 0 && l.characters[start-1] != rune('\n') {
@@ -656,7 +656,7 @@ func (l *Lexer) GetLineText(t token.Token) string {
 	}
 	// Find the end of that line
 	end := tokenStart.Char
-	if t.Type == token.EOF {
+	if t.Type == token.EOF && end > 0 {
 		end--
 	}
 	for end < len(l.characters) && l.characters[end] != rune('\n') {
